@@ -5,7 +5,7 @@ THEOREMS = ['C16_cmp_lex', 'C16_gcmp_lex', 'C16_order_laws', 'C16_gorder_laws', 
             'C16_eq', 'C16_geq', 'C16_cmp_eq_implies_eq', 'C16_eq_cmp_refuted', 'C16_sort']
 OWNED = {'AEq', 'ANe', 'ACmp', 'APartialCmp', 'ARel', 'GEq', 'GNe', 'GCmp', 'GPartialCmp', 'GRel', 'CSort'}
 RULE = ('pairs/triples of canonical angles and geometric numbers: same-blade pairs whose remainders differ by 0, 1 ulp, < 1e-15, exactly 1e-15 +- ulps, > 1e-15; '
-        'blades equal / one apart / a full turn apart / up to 2^40; magnitudes equal, 1 ulp apart, different; ==, !=, cmp, partial_cmp, <, <=, >, >= on every pair; '
+        'remainders -0.0 against +0.0 (obtained from the library itself); blades equal / one apart / a full turn apart / up to 2^40; magnitudes equal, 1 ulp apart, different; ==, !=, cmp, partial_cmp, <, <=, >, >= on every pair; '
         'vectors of up to 64 (quick) / 2000 (thorough) values with many duplicates and near-duplicates passed to sort(). non-trivial = owned op on operands that are not bit-identical; distinct by result bits')
 TRUSTED = TRUSTED_COMMON + ["std's sort algorithm is not modelled: Vec::sort's output is compared with the model's stable insertion sort, and the theorem is about that reference sort and the total order the library owes to std"]
 ASSUMPTIONS = ASSUME_COMMON
@@ -79,7 +79,37 @@ def generate(rng, tier):
     np_, ns, mx = (220, 60, 64) if tier == 'quick' else (6000, 300, 2000)
     cases = [pair_case(rng.fork(i)) for i in range(np_)]
     cases += [sort_case(rng.fork(10**6 + i), mx if i % 5 == 0 else 24) for i in range(ns)]
+    cases += [negzero_case(rng.fork(2 * 10**6 + i)) for i in range(12 if tier == 'quick' else 200)]
     return cases
+
+def negzero_case(r):
+    """remainders -0.0 and +0.0 are the same number: ==, cmp and sort must treat them alike. A -0.0 remainder
+    cannot be passed to a constructor; it comes out of the library itself (atan2(-0.0, x>0), Angle::new(-0.0, d))"""
+    P = Prog()
+    nz = [P.add('ANewCart', P.f(r.choice([1.0, 2.5, 1e-3])), P.f(-0.0)), P.add('ANew', P.f(-0.0), P.f(r.choice([1.0, 3.0, 4.0])))]
+    pz = [P.add('ANew', P.f(0.0), P.f(r.choice([1.0, 3.0]))), P.add('ANewCart', P.f(1.0), P.f(0.0))]
+    preds = []
+    def angle_preds(x, y):
+        eq = P.add('AEq', x, y); ne = P.add('ANe', x, y)
+        c = P.add('ACmp', x, y); pc = P.add('APartialCmp', x, y)
+        rels = [P.add('ARel', k, x, y) for k in range(4)]
+        return [('cmp_expected', [x, y, [c, pc]]), ('rel_expected', [x, y, rels]),
+                ('eq_implies', [x, y, eq, ne]), ('eq_iff_cmp_equal', [x, y, eq, c])]
+    for x in nz:
+        for y in pz:
+            preds += angle_preds(x, y) + angle_preds(y, x)
+    preds += angle_preds(nz[0], nz[1])
+    m1, m2 = r.choice([(5.0, 1.0), (1.0, 1.0), (2.0, fb.nxt(2.0, 1))])
+    g = P.add('GNewAngle', P.f(m1), nz[0]); h = P.add('GNewAngle', P.f(m2), pz[0])
+    for (x, y) in [(g, h), (h, g)]:
+        eq = P.add('GEq', x, y); ne = P.add('GNe', x, y)
+        c = P.add('GCmp', x, y); pc = P.add('GPartialCmp', x, y)
+        rels = [P.add('GRel', k, x, y) for k in range(4)]
+        preds += [('cmp_expected', [x, y, [c, pc]]), ('rel_expected', [x, y, rels]), ('eq_implies', [x, y, eq, ne]), ('eq_iff_cmp_equal', [x, y, eq, c])]
+    extra = [P.add('GNewAngle', P.f(r.choice([1.0, 3.0, 0.5])), r.choice(nz + pz)) for _ in range(6)]
+    cfrom = P.add('CFrom', g, h, *extra); srt = P.add('CSort', cfrom)
+    preds.append(('sorted_perm', [cfrom, srt]))
+    return Case(P, preds, 'negzero')
 
 LEVEL_TEXT = ('Kernel-checked theorems about the model: on finite values cmp never panics and IS the lexicographic order on (blade, remainder[, magnitude]); that order is reflexive, antisymmetric and transitive; '
               'partial_cmp = Some(cmp); == implies identical blades and remainders within the 1e-15 test (and equal magnitudes for Geonum); cmp = Equal implies ==; '
